@@ -933,6 +933,204 @@ def _corr_scoped_real(ctx, out):
                 bump(out, "scoped_real_theorem_applies_beyond_1to1")
 
 
+# --------------------------------------------------------------------------
+# (G) update_param_rules WITH SCOPES and the whole rule pipeline of initialise_from_nested, on real rule lists
+# --------------------------------------------------------------------------
+def _corr_scoped_proj(ctx, out):
+    """Inside the real `initialise_from_nested` capture (i) the `_ParamProjection` (coordinate dicts in their own set
+    iteration order, `same`, motif probs), the nested rule list handed to `update_param_rules` and its result, and
+    (ii) the arguments / result of `update_scoped_rules`.  The scoped projection model
+    (`Model/OptimiserScopedProj.lean`) is run on exactly those lists: projected rules must agree (scope, spelling,
+    is_constant, init, value of every emitted rule), for same=True also the FINAL rule list of the pipeline; the
+    driver evaluates the executable hypotheses of `projection_exact_scoped` / `projection_scoped_one_rule_per_edge` /
+    `initialise_rules_exact` (`nestedSame`, `onePerEdgeB`, distinct rich names, `wfrB`) and the edge-by-edge
+    conclusion on them."""
+    import random
+    from copy import deepcopy
+
+    import cogent3.evolve.likelihood_function as L
+    from cogent3 import make_tree
+
+    rng = ctx.subrng("scoped-proj")
+    configs = []
+    for _ in range(ctx.budget(2, 12)):
+        tree_s, taxa = rng.choice(TREES[1:])
+        for kind, label, nm, nr, am, ar in _scoping_cases(rng, tree_s, taxa):
+            configs.append((label, nm, nr, am, ar, tree_s, taxa))
+        pairs = [p for p in NESTED_NUC if _rate_params(p[0])]
+        rng.shuffle(pairs)
+        for a, b in pairs[: ctx.budget(10, 18)]:
+            # time-heterogeneous nulls (per edge / per clade / mixed with constants) are the point here
+            variant = rng.choice(["edge", "clade", "mixed", "edge", "clade", "const", "bounded", "free"])
+            tree_s, taxa = rng.choice(TREES[1:])
+            nr, ar = _null_variant(rng, variant, a, b, taxa)
+            configs.append((f"{_pair_class(a, b)}:{variant}", a, nr, b, ar, tree_s, taxa))
+    proj_recs, scoped_recs = [], []
+    orig_upr = L._ParamProjection.update_param_rules
+    orig_usr = L.update_scoped_rules
+
+    def spy_upr(self, rules):
+        rec = dict(rich={k: list(v) for k, v in self._rich_coords.items()},
+                   simple={k: list(v) for k, v in self._simple_coords.items()},
+                   same=bool(self._same), pi=[float(self._motif_probs[j]) for j in range(len(self._motif_probs))],
+                   rules=deepcopy(rules))
+        proj_recs.append(rec)
+        try:
+            res = orig_upr(self, rules)
+        except Exception as e:
+            rec["err"] = type(e).__name__
+            raise
+        rec["out"] = deepcopy(res)
+        return res
+
+    def spy_usr(rich, null):
+        rec = dict(rich=deepcopy(rich), null=deepcopy(null))
+        scoped_recs.append(rec)
+        try:
+            res = orig_usr(rich, null)
+        except Exception as e:
+            rec["err"] = type(e).__name__
+            raise
+        rec["out"] = deepcopy(res)
+        return res
+
+    metas = []
+    L._ParamProjection.update_param_rules = spy_upr
+    L.update_scoped_rules = spy_usr
+    try:
+        for label, nm, nr, am, ar, tree_s, taxa in configs:
+            aln = _alignment(taxa, 0, 150)
+            n0, m0 = len(proj_recs), len(scoped_recs)
+            try:
+                with warnings.catch_warnings():
+                    warnings.simplefilter("ignore")
+                    null = _mk_lf(nm, tree_s, aln, nr)
+                    _random_start(null, random.Random(rng.randrange(10**6)), nm)
+                    alt = _mk_lf(am, tree_s, aln, ar)
+                    alt.initialise_from_nested(null)
+            except Exception as e:
+                bump(out, "scoped_proj_init", "raised " + type(e).__name__)
+            else:
+                bump(out, "scoped_proj_init", "ok")
+            if len(proj_recs) == n0:
+                continue
+            edges = [n for n in make_tree(tree_s).get_node_names() if n != "root"]
+            metas.append((n0, m0 if len(scoped_recs) > m0 else None, label, nm, am, edges))
+    finally:
+        L._ParamProjection.update_param_rules = orig_upr
+        L.update_scoped_rules = orig_usr
+
+    ids = {}
+
+    def num(v):
+        """scalar -> float; motif-prob dict -> a small integer id (it only travels through)"""
+        if isinstance(v, dict):
+            key = repr(sorted((k, float(x)) for k, x in v.items()))
+            return float(ids.setdefault(key, 1000 + len(ids)))
+        return float(v)
+
+    def req_prule(r):
+        edges, single = _scope_of(r)
+        return dict(par=r["par_name"], edges=edges, single=single, is_constant=bool(r.get("is_constant", False)),
+                    init=rat(num(r["init"])) if "init" in r and r["init"] is not None else None,
+                    value=rat(num(r["value"])) if "value" in r and r["value"] is not None else None)
+
+    def canon_prule(r):
+        edges, single = _scope_of(r)
+        return [r["par_name"], None if edges is None else sorted(edges), single, bool(r.get("is_constant", False)),
+                num(r["init"]) if r.get("init") is not None else None, num(r["value"]) if r.get("value") is not None else None]
+
+    def canon_model_prule(r):
+        f = lambda x: None if x is None else float(unrat(x))
+        return [r["par"], None if r["edges"] is None else sorted(r["edges"]), r["single"], r["is_constant"], f(r["init"]), f(r["value"])]
+
+    def close(a, b):
+        if a is None or b is None:
+            return a is b
+        return abs(a - b) <= 1e-12 * max(1.0, abs(b))
+
+    def same_rules(want, got):
+        key = lambda x: repr(x[:4])
+        want, got = sorted(want, key=lambda x: (key(x), x[4] or 0)), sorted(got, key=lambda x: (key(x), x[4] or 0))
+        return len(want) == len(got) and all(w[:4] == g[:4] and close(w[4], g[4]) and close(w[5], g[5]) for w, g in zip(want, got))
+
+    reqs = []
+    for pi_, si_, label, nm, am, edges in metas:
+        rec = proj_recs[pi_]
+        rq = dict(rich=[[k, [[int(i), int(j)] for i, j in v]] for k, v in rec["rich"].items()],
+                  simple=[[k, [[int(i), int(j)] for i, j in v]] for k, v in rec["simple"].items()],
+                  ref=REF, **{"pass": ["mprobs", "length"]}, rules=[req_prule(r) for r in rec["rules"]],
+                  same=rec["same"], pi=[rat(p) for p in rec["pi"]], edge_names=edges)
+        if rec["same"] and si_ is not None:
+            sr = scoped_recs[si_]
+            rq["my"] = []
+            for r in sr["rich"]:
+                e_, s_ = _scope_of(r)
+                v = r.get("init", r.get("value"))
+                rq["my"].append(dict(par=r["par_name"], edges=e_, single=s_, val=None if v is None else rat(num(v))))
+        reqs.append(("project_scoped", rq))
+    reps = ctx.driver.batch(reqs) if reqs else []
+    for (pi_, si_, label, nm, am, edges), rep in zip(metas, reps):
+        out["evaluations"] += 1
+        rec = proj_recs[pi_]
+        inp = dict(label=label, null=nm, alt=am, same=rec["same"],
+                   nested_rules=[(r["par_name"],) + tuple(_scope_of(r)) + (bool(r.get("is_constant", False)),) for r in rec["rules"]])
+        if "error" in rep:
+            add_failure(out, "corr", "driver error (project_scoped)", inp, None, rep, confirmed=False)
+            continue
+        if "err" in rep or "err" in rec:
+            if rep.get("err") != rec.get("err"):
+                add_failure(out, "corr", "update_param_rules (scoped) error behaviour differs", inp, rep.get("err"), rec.get("err"), confirmed=False)
+            else:
+                bump(out, "scoped_proj_outcome", "raised " + rep["err"])
+            continue
+        want = [canon_model_prule(r) for r in rep["rules"]]
+        got = [canon_prule(r) for r in rec["out"]]
+        if not same_rules(want, got):
+            add_failure(out, "corr", "update_param_rules WITH SCOPES on real rule lists: model differs", inp,
+                        sorted(want, key=repr)[:12], sorted(got, key=repr)[:12], confirmed=False)
+            continue
+        cls = "same" if rec["same"] else "not_same"
+        bump(out, "scoped_proj_outcome", "projection agrees (" + cls + ")")
+        bump(out, "scoped_proj_class", label.split(":")[-1] if ":" in label else "scoping-case")
+        scopes = {repr(_scope_of(r)[0]) for r in rec["rules"] if r["par_name"] not in ("mprobs", "length")}
+        n_scoped = sum(1 for r in rec["rules"] if r["par_name"] not in ("mprobs", "length") and _scope_of(r)[0] is not None)
+        bump(out, "scoped_proj_nested_rate_rules_with_scope", min(n_scoped, 6))
+        bump(out, "scoped_proj_hyp_onePerEdgeB", rep["one_per_edge"])
+        bump(out, "scoped_proj_hyp_rich_names_distinct", rep["rich_names_distinct"])
+        if rec["same"]:
+            bump(out, "scoped_proj_hyp_nestedSame", rep["nested"])
+            all_hyp = rep["nested"] and rep["one_per_edge"] and rep["rich_names_distinct"]
+            bump(out, "scoped_proj_theorem_hypotheses_hold", bool(all_hyp))
+            if rep["nested"] and not rep["edge_rates_agree"]:
+                add_failure(out, "corr", "REAL rule lists: nestedSame holds but the edge-by-edge conclusion of projection_exact_scoped is false in the driver",
+                            inp, True, rep, confirmed=False)
+                continue
+            if all_hyp and n_scoped:
+                out["nontrivial"].add(("scoped-proj", label, nm, am, str(inp["nested_rules"])))
+            if "final" in rep or "final_err" in rep:
+                sr = scoped_recs[si_]
+                if "err" in sr:
+                    realf = {"err": sr["err"]}
+                else:
+                    realf = sorted(([r["par_name"], None if (sc := ([r["edge"]] if r.get("edge") is not None else r.get("edges"))) is None else sorted(sc),
+                                     num(r["init"] if "init" in r else r.get("value"))] for r in sr["out"]), key=repr)
+                if "final" in rep:
+                    modf = sorted(([r["par"], None if r["edges"] is None else sorted(r["edges"]), None if r["val"] is None else float(unrat(r["val"]))]
+                                   for r in rep["final"]), key=repr)
+                else:
+                    modf = {"err": rep["final_err"]}
+                if modf != realf:
+                    add_failure(out, "corr", "initialise_from_nested rule pipeline (update_scoped_rules ∘ update_param_rules): model differs", inp,
+                                modf if isinstance(modf, dict) else modf[:12], realf if isinstance(realf, dict) else realf[:12], confirmed=False)
+                    continue
+                bump(out, "scoped_proj_pipeline", "final rule list agrees")
+                bump(out, "scoped_proj_hyp_wfrB_on_projected", rep["wfr"])
+                bump(out, "initialise_rules_exact_hypotheses_hold", bool(rep["wfr"]))
+            if len(out["samples"]) < 16 and n_scoped >= 2 and all_hyp and rng.random() < 0.3:
+                out["samples"].append(dict(stream="G", case=inp, projected=sorted(got, key=repr)[:6]))
+
+
 def correspondence(ctx):
     out = new_outcome(
         "(A) scripted optimisers through the real maximise: seeded random objective tables (raises, NaN, ±inf, ties), "
@@ -942,7 +1140,10 @@ def correspondence(ctx):
         "(E) update_scoped_rules on generated rule lists (nested partitions of the edges, free / per-edge / clade scopes, singular \"edge\" form, name collisions, malformed); non-trivial = some rule value changed. "
         "(F) update_scoped_rules on the rule lists captured inside the real initialise_from_nested (scoping cases + nested named pairs with "
         "free/const/bounded/edge/clade/mixed nulls, random null values): model vs real result, and the executable hypothesis wfrB of "
-        "scoped_rules_preserve_values_checked evaluated on them; non-trivial = wfrB holds and some rich rule is not key-matched"
+        "scoped_rules_preserve_values_checked evaluated on them; non-trivial = wfrB holds and some rich rule is not key-matched. "
+        "(G) update_param_rules WITH SCOPES + the whole rule pipeline on the projection objects / rule lists captured inside the real "
+        "initialise_from_nested (time-heterogeneous nulls: per edge / per clade / mixed constants); hypotheses nestedSame, onePerEdgeB, "
+        "distinct rich names, wfrB evaluated on them; non-trivial = all hypotheses hold and some nested rate rule is edge-scoped"
     )
     _corr_scripted(ctx, out)
     _corr_real_optimisers(ctx, out)
@@ -950,6 +1151,7 @@ def correspondence(ctx):
     _corr_mapping(ctx, out)
     _corr_scoped(ctx, out)
     _corr_scoped_real(ctx, out)
+    _corr_scoped_proj(ctx, out)
     return out
 
 
